@@ -70,17 +70,25 @@ func (r *raceState) tick(g int) {
 	r.vcs[g][g]++
 }
 
-// spawn creates the clock of a new goroutine started by the current one.
-func (r *raceState) spawn() int {
-	child := len(r.vcs)
+// spawn creates the clock of goroutine child, started by the current one.
+func (r *raceState) spawn(child int) {
+	r.ensure(child)
 	vc := append([]int32(nil), r.vcs[r.gid]...)
 	for len(vc) <= child {
 		vc = append(vc, 0)
 	}
 	vc[child] = 1
-	r.vcs = append(r.vcs, vc)
+	r.vcs[child] = vc
 	r.tick(r.gid)
-	return child
+}
+
+func (r *raceState) ensure(g int) {
+	for len(r.vcs) <= g {
+		n := len(r.vcs)
+		vc := make([]int32, n+1)
+		vc[n] = 1
+		r.vcs = append(r.vcs, vc)
+	}
 }
 
 func (r *raceState) acquire(key interface{}) {
